@@ -100,7 +100,11 @@ def use_loop(loop, foreign=False):
     (the harness' pause / kill / resume / future().cancel() / unbundle) then sees the decoy: everything a process creates for
     itself must belong to ITS loop, not to whatever loop happens to be current."""
     global _DECOY
-    if foreign:
+    if foreign == 'none':
+        # no current loop at all (a worker thread that drives `Process(loop=...)` by hand): `asyncio.get_event_loop()` raises
+        # outside a callback, so anything the process creates for itself without naming its loop fails at once
+        asyncio.set_event_loop(None)
+    elif foreign:
         if _DECOY is None or _DECOY.is_closed():
             _DECOY = DetLoop()
         asyncio.set_event_loop(_DECOY)
